@@ -44,6 +44,8 @@ pub fn expect_of(p: &Program, is_head: bool) -> Expect {
                 }
             }
         }
+        // `upgrade` panics on a protocol name that cannot be a header value: the request is dropped
+        Finish::Upgrade { proto, .. } if !proto.is_ascii() => Expect::Msg(500, vec![]),
         Finish::Upgrade { resp, .. } => Expect::Msg(101, resp.body.0.clone()),
         Finish::Drop | Finish::Panic => Expect::Msg(500, vec![]),
     }
@@ -79,8 +81,9 @@ fn gen_action(rng: &mut Rng, id: &str, tier: Tier) -> Finish {
             } else {
                 let flush = rng.chance(1, 2);
                 let mut ps = split_parts(&lit, parts, rng);
-                if flush && rng.chance(1, 3) {
-                    // an empty first part: the writer is flushed before anything was written
+                if rng.chance(1, 3) {
+                    // an empty first part: with `flush` the writer is flushed before anything was
+                    // written, without it the first call is a zero-length write
                     ps.insert(0, B(vec![]));
                 }
                 Finish::Writer { parts: ps, flush }
@@ -96,7 +99,7 @@ impl Campaign for C01c {
         "C01"
     }
     fn rule(&self) -> &'static str {
-        "seeded scenarios: 1-2 connections, pipeline of n requests answered by handler threads in a generated permutation (virtual delays spread over milliseconds or over several seconds, begin-after chains or scheduler-decided), actions respond(identity/chunked, 0..40000 B)/into_writer(0..4 parts, +-flush after each part, +-flush before the first write)/drop, short writes and small send windows; non-trivial = at least one response was started while an earlier request of the same connection was still unfinished; distinct = interleaving fingerprint (hash of the (thread, operation, virtual time) sequence)"
+        "seeded scenarios: 1-2 connections, pipeline of n requests answered by handler threads in a generated permutation (virtual delays spread over milliseconds or over several seconds, begin-after chains or scheduler-decided), actions respond(identity/chunked, 0..40000 B)/into_writer(0..4 parts, +-flush after each part, +-flush or a zero-length write before the first bytes)/drop, short writes and small send windows; non-trivial = at least one response was started while an earlier request of the same connection was still unfinished; distinct = interleaving fingerprint (hash of the (thread, operation, virtual time) sequence)"
     }
     fn runs(&self, tier: Tier) -> u64 {
         match tier {
